@@ -209,12 +209,25 @@ def rule_table(ctx):
   repo = ctx.repo
   f, w = walk(repo, "PointTable")
   base, N = P("param", "base"), P("param", "n")
-  env = None
-  for e in w.events:
-    if e.kind == "return":
-      env = e.state.env
-  m = as_poly(env.get("m")) if env and env.get("m") is not None else None
-  r = as_poly(env.get("r")) if env and env.get("r") is not None else None
+  # the two sequences by role: `low` is what BatchAddX adds a point of `high` to (whatever the locals are called, temporaries or not)
+  lo = hi = None
+  for info in w.loop_info.values():
+    for vis in info.get("visits", []):
+      if not isinstance(vis.get("iter"), Poly):
+        continue
+      for t_ in vis["iter"].all_atoms():
+        if t_.kind == "mcall" and len(t_.args) == 4 and t_.args[1] == lit("BatchAddX"):
+          lo = as_poly(t_.args[3])
+          pa_ = as_poly(t_.args[2]).as_atom()
+          if pa_ is not None and pa_.kind == "idx":
+            hi = as_poly(pa_.args[0])
+            ha_ = hi.as_atom()
+            if ha_ is not None and ha_.kind == "enumerate":
+              hi = as_poly(ha_.args[0])
+  def seq_len(v):
+    a_ = v.as_atom() if v is not None else None
+    return as_poly(a_.args[3]) if a_ is not None and a_.kind == "mcall" and len(a_.args) == 4 and a_.args[1] == lit("PointSequence") else None
+  m, r = seq_len(lo), seq_len(hi)
   if m is None or r is None or m.as_atom() is None:
     ctx.incomplete(R, f.where, "m, r", "table dimensions not found")
     return
@@ -224,8 +237,6 @@ def rule_table(ctx):
   ctx.record(R, f.where, "m * r >= N", ok, "indices i*m + j cover [0, N): %s" % used if ok else "m*r - N has lower bound %r: the table may miss the largest indices" % (LB,))
   okm = m == sym.mk("math.sqrt", N)
   ctx.record(R, f.where, "m = isqrt(N)", okm, "two sequences of about sqrt(N) points" if okm else "m is %r" % (m,))
-  lo = as_poly(env.get("sequence_low"))
-  hi = as_poly(env.get("sequence_high"))
   want_lo = sym.mk("mcall", SELF, lit("PointSequence"), base, m)
   want_hi = sym.mk("mcall", SELF, lit("PointSequence"), sym.mk("mcall", SELF, lit("Multiply"), base, m), r)
   ctx.record(R, f.where, "sequences: j*base (j < m), i*m*base (i < r)", lo == want_lo and hi == want_hi,
